@@ -43,11 +43,27 @@ def tables(wd, family: str, *, rnd_seed: int | None = None, rndn=5, rndk=8) -> d
     return cached(f"sep-gen-{family}", go, module="SepMachine")
 
 
+def tables_extra(wd, family: str) -> dict:
+    """Families of SepExtra.tla (same machine, other initial states): design-level invariants and tables in one run."""
+    def go():
+        f = wd / f"SepExtra_{family}.cfg"
+        f.write_text(f'SPECIFICATION SpecX\nCONSTANTS\n  Family = "{family}"\n  RndN = 5\n  RndK = 1\n  Grows = FALSE\n'
+                     "INVARIANT EquivOnADMG\nINVARIANT SigmaLaws\nINVARIANT Emit\nCHECK_DEADLOCK FALSE\n")
+        r = tlc("SepExtra.tla", str(f), workers=NCPU, meta=wd / f"genx{family}", xmx="6g")
+        v = tlc_violation(r)
+        if v:
+            raise MachineryError(f"SepExtra design check ({family}): {v} violated\n" + r["out"][-3000:])
+        tlc_ok(r, f"SepExtra {family}")
+        return {"recs": tagged_lines(r["out"], "SEP"), "generated": r["generated"], "distinct": r["distinct"], "family": family}
+    return cached(f"sep-genx-{family}", go, module="SepExtra")
+
+
 def warm_all() -> None:
     wd = workdir("sep-warm")
     for fam in ("A3", "A4o", "M3", "C5", "D5", "DAG5o"):
         mc(wd, fam)
         tables(wd, fam)
+    tables_extra(wd, "BC5")
 
 
 def gkey(g) -> str:
